@@ -68,7 +68,8 @@ type Verifier struct {
 	globIDs      map[string]int
 	safety       bool
 	factSeen     map[string]bool
-	setTheory    bool // the function under verification speaks about string sets (visitedset / strset / domof)
+	contractLits []string // string literals of the verified function's contract (instances for map-range exhaustion)
+	setTheory    bool     // the function under verification speaks about string sets (visitedset / strset / domof)
 	ftCache      map[string]*Contract
 	inlineDepth  int
 	wantTags     map[string]bool
